@@ -1,5 +1,185 @@
-//! C17 — not implemented yet.
+//! C17 — all element access paths of a vector or quaternion see the same N lanes.
+use vcore::*;
+
+/// One lane as a canonical word (float bit pattern / two's complement truncated to the width).
+pub trait Lane: Copy + PartialEq + Default + std::fmt::Debug + std::fmt::Display + 'static {
+    const BITS: u32;
+    const FLOAT: bool;
+    const SIGNED: bool;
+    fn fb(w: u64) -> Self;
+    fn tb(self) -> u64;
+    /// parse one number printed by Debug / Display
+    fn parse(s: &str) -> Option<Self>;
+    /// IEEE value equality (NaN ~ NaN, -0 ~ +0) / integer equality
+    fn ieq(a: Self, b: Self) -> bool;
+    fn isnan(self) -> bool;
+    fn one() -> Self;
+    fn neg_one() -> Self;
+    fn minv() -> Self;
+    fn maxv() -> Self;
+    fn nan() -> Self;
+    fn inf() -> Self;
+    fn neg_inf() -> Self;
+}
+macro_rules! float_lane {
+    ($t:ident, $u:ty, $bits:expr) => {
+        impl Lane for $t {
+            const BITS: u32 = $bits;
+            const FLOAT: bool = true;
+            const SIGNED: bool = true;
+            #[inline]
+            fn fb(w: u64) -> $t {
+                <$t>::from_bits(w as $u)
+            }
+            #[inline]
+            fn tb(self) -> u64 {
+                self.to_bits() as u64
+            }
+            fn parse(s: &str) -> Option<$t> {
+                s.parse::<$t>().ok()
+            }
+            #[inline]
+            fn ieq(a: $t, b: $t) -> bool {
+                (a.is_nan() && b.is_nan()) || a == b
+            }
+            #[inline]
+            fn isnan(self) -> bool {
+                self.is_nan()
+            }
+            fn one() -> $t {
+                1.0
+            }
+            fn neg_one() -> $t {
+                -1.0
+            }
+            fn minv() -> $t {
+                $t::MIN
+            }
+            fn maxv() -> $t {
+                $t::MAX
+            }
+            fn nan() -> $t {
+                $t::NAN
+            }
+            fn inf() -> $t {
+                $t::INFINITY
+            }
+            fn neg_inf() -> $t {
+                $t::NEG_INFINITY
+            }
+        }
+    };
+}
+float_lane!(f32, u32, 32);
+float_lane!(f64, u64, 64);
+macro_rules! int_lane {
+    ($t:ident, $u:ty, $bits:expr, $signed:expr) => {
+        impl Lane for $t {
+            const BITS: u32 = $bits;
+            const FLOAT: bool = false;
+            const SIGNED: bool = $signed;
+            #[inline]
+            fn fb(w: u64) -> $t {
+                w as $u as $t
+            }
+            #[inline]
+            fn tb(self) -> u64 {
+                self as $u as u64
+            }
+            fn parse(s: &str) -> Option<$t> {
+                s.parse::<$t>().ok()
+            }
+            #[inline]
+            fn ieq(a: $t, b: $t) -> bool {
+                a == b
+            }
+            #[inline]
+            fn isnan(self) -> bool {
+                false
+            }
+            fn one() -> $t {
+                1
+            }
+            fn neg_one() -> $t {
+                (0 as $t).wrapping_sub(1)
+            }
+            fn minv() -> $t {
+                $t::MIN
+            }
+            fn maxv() -> $t {
+                $t::MAX
+            }
+            fn nan() -> $t {
+                0
+            }
+            fn inf() -> $t {
+                0
+            }
+            fn neg_inf() -> $t {
+                0
+            }
+        }
+    };
+}
+int_lane!(i8, u8, 8, true);
+int_lane!(u8, u8, 8, false);
+int_lane!(i16, u16, 16, true);
+int_lane!(u16, u16, 16, false);
+int_lane!(i32, u32, 32, true);
+int_lane!(u32, u32, 32, false);
+int_lane!(i64, u64, 64, true);
+int_lane!(u64, u64, 64, false);
+int_lane!(usize, u64, 64, false);
+
+/// the numbers inside the outermost (...) or [...] of a Debug / Display text
+pub fn parse_lanes<S: Lane>(s: &str) -> Option<Vec<S>> {
+    let a = s.find(|c| c == '(' || c == '[')?;
+    let b = s.rfind(|c| c == ')' || c == ']')?;
+    if b <= a {
+        return None;
+    }
+    s[a + 1..b].split(',').map(|t| t.trim()).filter(|t| !t.is_empty()).map(S::parse).collect()
+}
+pub fn text_tokens(s: &str) -> Option<Vec<&str>> {
+    let a = s.find(|c| c == '(' || c == '[')?;
+    let b = s.rfind(|c| c == ')' || c == ']')?;
+    if b <= a {
+        return None;
+    }
+    Some(s[a + 1..b].split(',').map(|t| t.trim()).filter(|t| !t.is_empty()).collect())
+}
+
+#[cfg(not(feature = "core"))]
+mod simd {
+    pub const VARIANT: &str = "simd";
+    use ::glam_simd as glam;
+    include!("suite.rs");
+}
+#[cfg(not(feature = "core"))]
+mod scalar {
+    pub const VARIANT: &str = "scalar";
+    use ::glam_scalar as glam;
+    include!("suite.rs");
+}
+#[cfg(feature = "core")]
+mod core_simd {
+    pub const VARIANT: &str = "core";
+    use ::glam_core as glam;
+    include!("suite.rs");
+}
+
 fn main() {
-    eprintln!("c17: not implemented");
-    std::process::exit(2);
+    let args = Args::parse();
+    let mut subs = vec![];
+    #[cfg(not(feature = "core"))]
+    {
+        subs.extend(simd::subs(&args));
+        subs.extend(scalar::subs(&args));
+    }
+    #[cfg(feature = "core")]
+    {
+        subs.extend(core_simd::subs(&args));
+    }
+    let code = main_with("C17", "see MANIFEST / evidence rule", &args, subs);
+    std::process::exit(code);
 }
